@@ -24,7 +24,10 @@ def m1(reg, loc, nf, delta=None):
 def patrol(chk):
     """the statement on the implementation: first moments of the RSL objects the light classes return"""
     from yadism.coefficient_functions.light import f2_cc, f2_nc, f3_nc, g1_nc
+    from yadism.coefficient_functions.light import kernels as lk
     import types
+    # the classes as the Combiner resolves them (module chosen by kind and process, class by name): a sum rule holds for what a run uses
+    wired = lambda kind, proc, cls: getattr(lk.import_pc_module(kind, proc), cls)
     bad, n = [], 0
     for nf in (3, 4, 5, 6):
         esf = types.SimpleNamespace()
@@ -32,12 +35,19 @@ def patrol(chk):
         tol = {1: 1e-9, 2: 0.02, 3: 0.15}
         table = [("Adler", f2_cc.NonSingletOdd, {1: 0.0, 2: 0.0, 3: 0.0}), ("Adler (NLO, common to both combinations)", f2_nc.NonSinglet, {1: 0.0}),
                  ("GLS", f3_nc.NonSinglet, G), ("Bjorken", g1_nc.NonSinglet, {1: G[1], 2: G[2]}),
-                 ("GLS fl02", f3_nc.Valence, {3: 64 * 0.41318 * nf})]
+                 ("GLS fl02", f3_nc.Valence, {3: 64 * 0.41318 * nf}),
+                 ("Adler", wired("F2", "CC", "NonSingletOdd"), {1: 0.0, 2: 0.0, 3: 0.0}), ("GLS", wired("F3", "CC", "NonSingletOdd"), G),
+                 ("GLS fl02", wired("F3", "CC", "Valence"), {3: 64 * 0.41318 * nf}), ("GLS", wired("F3", "NC", "NonSinglet"), G),
+                 ("GLS fl02", wired("F3", "NC", "Valence"), {3: 64 * 0.41318 * nf}), ("Bjorken", wired("g1", "NC", "NonSinglet"), {1: G[1], 2: G[2]})]
         for rule, cls, targets in table:
             pc = cls(esf, nf)
             for o, tgt in targets.items():
                 rsl = pc[o]()
                 n += 1
+                if rsl is None or (rsl.reg is None and rsl.loc is None):
+                    bad.append(dict(rule=rule, cls=cls.__module__.split(".")[-1] + "." + cls.__name__, order=o, nf=nf, first_moment=0.0, expected=tgt, tol=0.0,
+                                    note="the class returns no coefficient function at this order"))
+                    continue
                 reg = (lambda z, r=rsl: r.reg(z, r.args["reg"]))
                 i, _ = si.quad(reg, 0, 1, epsabs=1e-12, epsrel=1e-12, limit=400, points=[0.5])
                 val = i + (rsl.loc(0.0, rsl.args["loc"]) if rsl.loc is not None else 0.0)
@@ -46,7 +56,7 @@ def patrol(chk):
                     bad.append(dict(rule=rule, cls=cls.__module__.split(".")[-1] + "." + cls.__name__, order=o, nf=nf, first_moment=val, expected=tgt, tol=t))
     chk.patrol["moments_on_implementation"] = dict(cases=n, failures=len(bad),
                                                    rule="first moments int_0^1 reg + loc(0) of the RSL objects returned by light.f2_cc.NonSingletOdd / f2_nc / f3_nc / g1_nc NonSinglet and "
-                                                        "f3_nc.Valence for orders 1..3 and nf = 3..6 (scipy quad) against the Adler / GLS / Bjorken coefficients")
+                                                        "f3_nc.Valence, and of the classes the Combiner resolves for (F2, CC), (F3, CC), (F3, NC), (g1, NC), for orders 1..3 and nf = 3..6 (scipy quad) against the Adler / GLS / Bjorken coefficients")
     for b in bad[:4]:
         chk.violation("moment:%s:%s:%s" % (b["rule"], b.get("cls", ""), b.get("order", b.get("N"))), "sum rule / moment violated on the implementation: %s" % b, b)
     return bad
